@@ -7,15 +7,32 @@ Model: `Model/DataModel.lean` (AST level model of `data_model_parser.rs` and of 
 persist cycle of `graph_database.rs`). All statements quantify over every model, every version, every
 history of versions (user and system), every hash-map visit order `pri` — no bound.
 
-`Defects.asImplemented` is `Defects.none` since the two deviations found by this check were fixed in
-/repo (e35fd01, fb21964): the full statements below are about the code as it is now. The two
-`C15_breaks_*` witnesses and `C15_partial` describe the code before the fixes (`Defects.beforeFixes`),
-i.e. what a revert of either fix brings back; the replays in corpus/C15 exhibit the same on the real code.
+Two deviations found by this check were fixed in /repo (`hashOrderIds` e35fd01, `partialRefusal` fb21964);
+a third one is open (`defaultDropAccepted`: a version may remove the default of a not nullable field).
+`Defects.asImplemented` differs from `Defects.none` by that switch only; it is consulted by a single check of
+`Entity::update`, so every theorem below that does not mention conformance of old rows also holds for the code
+as implemented with the same proof (`C15_code_vs_intended`). The `C15_breaks_*` witnesses and `C15_partial`
+describe what each defect does; the replays in corpus/C15 exhibit the same on the real code.
 -/
 namespace Discret.DM
 
-/-- the theorems stated for `Defects.none` are about the code as implemented -/
-theorem C15_code_is_intended : Defects.asImplemented = Defects.none := rfl
+/-- the code as implemented has text-order numbering and atomic refusals; it differs from the intended
+    behaviour by the open `defaultDropAccepted` only -/
+theorem C15_code_vs_intended :
+    Defects.asImplemented.hashOrderIds = false ∧ Defects.asImplemented.partialRefusal = false ∧
+    Defects.asImplemented = { Defects.none with defaultDropAccepted := true } := ⟨rfl, rfl, rfl⟩
+
+/-- ids, acceptance order-independence, refusals and restarts for the code as implemented: the lemmas only need
+    `hashOrderIds = false` and `partialRefusal = false` -/
+theorem C15_as_implemented (pri pri' : List Key) (system : Bool) (m m' : Model) (v : Version) (hm : m.WF) :
+    (applyV Defects.asImplemented pri system m v).1.WF ∧
+    (applyV Defects.asImplemented pri system m v).1 = (applyV Defects.asImplemented pri' system m v).1 ∧
+    (∀ e, (applyV Defects.asImplemented pri system m v).2 = some e → (applyV Defects.asImplemented pri system m v).1 = m) ∧
+    (applyV Defects.asImplemented pri system m v = (m', none) → applyV Defects.asImplemented pri' system m' v = (m', none)) :=
+  ⟨applyV_wf Defects.asImplemented rfl rfl pri system m v hm,
+   (applyV_pri Defects.asImplemented rfl rfl pri pri' system m v).1,
+   fun e h => applyV_refused Defects.asImplemented rfl pri system m v e h,
+   fun h => applyV_idem Defects.asImplemented rfl pri pri' system m m' v hm h⟩
 
 /-! ### short ids never change -/
 
@@ -104,6 +121,36 @@ theorem C15_new_fields_read_default_or_null (m : Model) (steps : List Step) (hm 
     (row : Row) (hrow : ∀ p ∈ row, ∃ g ∈ ent.fields, g.short = p.1) :
     read (runSteps Defects.none m steps) n e f row = some (fd'.dflt.map (·.tok)) :=
   read_new_field hm (runSteps_wf Defects.none rfl rfl m steps hm) (runSteps_ext Defects.none m steps) he hnew hf' row hrow
+
+/-- **C15 (old rows keep conforming).** A row written under model `m` that conforms to its entity (what a peer
+    checks before it stores a row it receives: every field present with a value of its type, or absent while the
+    field is nullable or has a default) conforms to that entity in every later model of the history: an accepted
+    version never makes a field that rows may lack "not nullable without default", and a new field is nullable
+    or has a default. `vok` is the per-type value check, arbitrary. -/
+theorem C15_old_rows_conform (vok : FType → String → Bool) (m : Model) (steps : List Step) (hm : m.WF)
+    (n e : String) (ent : Entity) (he : m.findEntity n e = some ent) (row : Row)
+    (hrow : ∀ p ∈ row, ∃ g ∈ ent.fields, g.short = p.1) (hc : rowConforms vok ent row = true) :
+    ∃ ent', (runSteps Defects.none m steps).findEntity n e = some ent' ∧ rowConforms vok ent' row = true :=
+  runSteps_conforms vok m steps hm n e ent he row hrow hc
+
+/-! ### the reverse table (short name ↦ entity) -/
+
+/-- **C15 (the reverse table stays complete).** `DataModel` carries `entities_short`; after any history of
+    versions every entity of the model is found again through its short name — also the entities a later
+    version added to an existing namespace. -/
+theorem C15_reverse_table_complete (steps : List Step) :
+    (steps.foldl (fun dm s => (dm.apply Defects.none s.2.1 s.1 s.2.2).1) DataModel.empty).RevOk ∧
+    (steps.foldl (fun dm s => (dm.apply Defects.none s.2.1 s.1 s.2.2).1) DataModel.empty).core.WF := by
+  have key : ∀ (dm : DataModel), dm.core.WF → dm.RevOk →
+      (steps.foldl (fun dm s => (dm.apply Defects.none s.2.1 s.1 s.2.2).1) dm).RevOk ∧
+      (steps.foldl (fun dm s => (dm.apply Defects.none s.2.1 s.1 s.2.2).1) dm).core.WF := by
+    induction steps with
+    | nil => intro dm hw hr; exact ⟨hr, hw⟩
+    | cons s rest ih =>
+      intro dm hw hr
+      simp only [List.foldl_cons]
+      exact ih _ (applyV_wf Defects.none rfl rfl s.2.1 s.1 dm.core s.2.2 hw) (apply_revOk s.2.1 s.1 dm s.2.2 hw hr)
+  exact key DataModel.empty wf_empty revOk_empty
 
 /-! ### a refused version changes nothing; the same text again changes nothing -/
 
@@ -195,8 +242,8 @@ def wV1 : Version := [{ name := "", ents := [ent "P" false [fI "a" false]] }]
 /-- `{ P { a : Integer, b : Integer nullable, c : Integer nullable } }` -/
 def wV2 : Version := [{ name := "", ents := [ent "P" false [fI "a" false, fI "b" true, fI "c" true]] }]
 
-def onlyHashOrder : Defects := { hashOrderIds := true, partialRefusal := false }
-def onlyPartial : Defects := { hashOrderIds := false, partialRefusal := true }
+def onlyHashOrder : Defects := { hashOrderIds := true, partialRefusal := false, defaultDropAccepted := false }
+def onlyPartial : Defects := { hashOrderIds := false, partialRefusal := true, defaultDropAccepted := false }
 
 set_option maxRecDepth 100000 in
 /-- **C15_breaks_hashOrderIds** (data_model_parser.rs:1038-1051 before e35fd01). Two fields added in one
@@ -236,13 +283,35 @@ theorem C15_breaks_partialRefusal :
          = [(1, [("a", some "1"), ("b", none), ("c", some "secret")])]) := by
   decide
 
+/-- `{ P { a : Integer, b : Integer default 3 } }` then `{ P { a : Integer, b : Integer } }` -/
+def wDflt : Version := [{ name := "", ents := [ent "P" false [fI "a" false,
+  { name := "b", cls := .ok, ty := .int, nullable := false, dflt := some { kind := .int, tok := "3" }, deprecated := false }]] }]
+def wNoDflt : Version := [{ name := "", ents := [ent "P" false [fI "a" false, fI "b" false]] }]
+
+set_option maxRecDepth 100000 in
+/-- **C15_breaks_defaultDropAccepted** (data_model_parser.rs:1015-1025, open; confirmed on the real code:
+    corpus/C15/default_dropped.ops). A row written when `P` only had `a`; a version adds `b` not nullable with a
+    default (accepted, the row reads 3); the next version removes the default: the code accepts it, the old row
+    reads null for a not nullable field and no longer conforms (`MissingJsonField`: every peer refuses it) —
+    `C15_old_rows_conform` fails. The intended behaviour refuses that version. -/
+theorem C15_breaks_defaultDropAccepted :
+    let s0 := (Inst.fresh.start Defects.asImplemented [] [] wV1).1
+    let s1 := (s0.put "" "P" 1 [("a", .int, "5")]).1
+    let s2 := (s1.updateLive Defects.asImplemented [] [] wDflt)
+    let s3 := (s2.1.updateLive Defects.asImplemented [] [] wNoDflt)
+    s2.2 = none ∧ s2.1.conf (fun _ _ => true) = some [] ∧
+    s3.2 = none ∧ s3.1.conf (fun _ _ => true) = some [(1, true)] ∧
+    ((s2.1.updateLive Defects.none [] [] wNoDflt).2 = some .missingDefaultValue) := by
+  decide
+
 /-- **C15_partial** (the code before the fixes, under a decidable guard). When the version is accepted and
-    brings at most one new field to each existing entity, the model with both defects computes exactly
-    what the intended behaviour computes — so every theorem above applies to that step. What is missing:
-    versions adding several fields to one entity (`hashOrderIds`) and refused versions (`partialRefusal`). -/
+    brings at most one new field to each existing entity, the model with hash-order numbering and partial
+    refusals computes exactly what the code as implemented now computes. What is missing: versions adding
+    several fields to one entity (`hashOrderIds`), refused versions (`partialRefusal`), and for conformance of
+    old rows the versions that drop a default (`defaultDropAccepted`, still open). -/
 theorem C15_partial (pri : List Key) (system : Bool) (m m' : Model) (v : Version)
     (hg : oneFreshGuard system m v = true) (h : applyV Defects.beforeFixes pri system m v = (m', none)) :
-    applyV Defects.none pri system m v = (m', none) :=
+    applyV Defects.asImplemented pri system m v = (m', none) :=
   applyV_single Defects.beforeFixes pri system m m' v hg h
 
 /-! ### non-vacuity -/
